@@ -154,51 +154,11 @@ func checkC11(p *core.Program, r *core.Report) {
 				ni.evalSym = docs[f.Name()]
 			}
 		}
-		// String: Sprintf format and argument order
-		for _, cs := range core.Calls(strFn, false) {
-			o := core.CalleeObj(cs.Common())
-			if o == nil || core.ObjName(o) != "fmt.Sprintf" {
-				continue
-			}
-			f, ok := core.ConstString(cs.Common().Args[0])
-			if !ok {
-				continue
-			}
-			// variadic arguments by index
-			byIdx := map[int64]ssa.Value{}
-			if sl, ok := cs.Common().Args[1].(*ssa.Slice); ok {
-				if al, ok := sl.X.(*ssa.Alloc); ok {
-					for _, ref := range *al.Referrers() {
-						if ia, ok := ref.(*ssa.IndexAddr); ok {
-							k, _ := core.ConstInt(ia.Index)
-							for _, r2 := range *ia.Referrers() {
-								if s2, ok := r2.(*ssa.Store); ok {
-									byIdx[k] = s2.Val
-								}
-							}
-						}
-					}
-				}
-			}
-			var argFields []string
-			for i := int64(0); i < int64(len(byIdx)); i++ {
-				fld := ""
-				for v := range core.BackSlice(byIdx[i], nil) {
-					if c, ok := v.(*ssa.Call); ok && c.Call.IsInvoke() && c.Call.Method.Name() == "String" {
-						if ld, ok := c.Call.Value.(*ssa.UnOp); ok {
-							if fv := core.FieldAddrVar(ld.X); fv != nil {
-								fld = fv.Name()
-							}
-						}
-					}
-					if ld, ok := v.(*ssa.UnOp); ok && fld == "" {
-						if fv := core.FieldAddrVar(ld.X); fv != nil {
-							fld = fv.Name()
-						}
-					}
-				}
-				argFields = append(argFields, fld)
-			}
+		// String: the printed template (constants, +, Sprintf — computed by the symbolic string evaluator) and the order in
+		// which the fields' own String() results appear in it
+		for _, alt := range c11PrintedTemplates(p, strFn) {
+			f, argFields := alt.format, alt.fields
+			cs := strFn
 			if len(ni.exprFlds) == 2 && strings.Count(f, "%s") == 2 {
 				ni.opText = strings.TrimSpace(strings.ReplaceAll(f, "%s", ""))
 			}
@@ -555,4 +515,60 @@ func concatParts(v ssa.Value) []ssa.Value {
 		return append(concatParts(bo.X), concatParts(bo.Y)...)
 	}
 	return []ssa.Value{v}
+}
+
+type c11Printed struct {
+	format string   // literal text with %s where a field is printed
+	fields []string // the fields printed, in order ("" for anything else)
+}
+
+// c11PrintedTemplates evaluates a String() method symbolically: each alternative is literal text interleaved with the
+// String() of the receiver's fields (or the fields themselves).
+func c11PrintedTemplates(p *core.Program, strFn *ssa.Function) []c11Printed {
+	ev := &tEval{p: p, pkgPath: core.FuncPkgPath(strFn), parenthesizers: map[*ssa.Function]bool{}}
+	fieldOf := func(v ssa.Value) string {
+		if ld, ok := v.(*ssa.UnOp); ok {
+			if fv := core.FieldAddrVar(ld.X); fv != nil {
+				return fv.Name()
+			}
+		}
+		return ""
+	}
+	ev.hook = func(ev *tEval, fr *tFrame, c *ssa.Call) (aval, bool) {
+		if c.Call.IsInvoke() && c.Call.Method.Name() == "String" {
+			if fld := fieldOf(c.Call.Value); fld != "" {
+				return holeStr(ev.namedHole("field", fld, -1, false, c)), true
+			}
+		}
+		return nil, false
+	}
+	res := ev.evalFunc(strFn, []aval{&aUnknown{}}, nil)
+	s, ok := res[0].(*aStr)
+	if !ok {
+		return nil
+	}
+	var out []c11Printed
+	for _, a := range s.alts {
+		pr := c11Printed{}
+		for _, pc := range a.pieces {
+			if pc.hole == nil {
+				pr.format += strings.ReplaceAll(pc.lit, "%", "%%")
+				continue
+			}
+			pr.format += "%s"
+			name := ""
+			if pc.hole.kind == "field" {
+				name = pc.hole.name
+			} else if pc.hole.src != nil {
+				for v := range core.BackSlice(pc.hole.src, nil) {
+					if fld := fieldOf(v); fld != "" && name == "" {
+						name = fld
+					}
+				}
+			}
+			pr.fields = append(pr.fields, name)
+		}
+		out = append(out, pr)
+	}
+	return out
 }
